@@ -66,7 +66,8 @@ class ZorgFileCompiler(ZorgFileListener):
         self._s = _ZorgFileCompilerState()
 
     def enterArea(self, ctx: ZorgFileParser.AreaContext) -> None:  # noqa: D102
-        self._add_tag("areas", ctx.children[1].getText())
+        if (value := _second_child_text(ctx)) is not None:
+            self._add_tag("areas", value)
 
     def enterBase_note(
         self, ctx: ZorgFileParser.Base_noteContext
@@ -98,7 +99,8 @@ class ZorgFileCompiler(ZorgFileListener):
     def enterContext(
         self, ctx: ZorgFileParser.ContextContext
     ) -> None:  # noqa: D102
-        self._add_tag("contexts", ctx.children[1].getText())
+        if (value := _second_child_text(ctx)) is not None:
+            self._add_tag("contexts", value)
 
     def enterDate(self, ctx: ZorgFileParser.DateContext) -> None:  # noqa: D102
         if not zdt.is_long_date_spec(ctx.DATE().getText()):
@@ -165,7 +167,8 @@ class ZorgFileCompiler(ZorgFileListener):
     def enterGlobal_link(
         self, ctx: ZorgFileParser.Global_linkContext
     ) -> None:  # noqa: D102
-        self._add_tag("links", f"global:{ctx.children[1].getText()}")
+        if (value := _second_child_text(ctx)) is not None:
+            self._add_tag("links", f"global:{value}")
 
     def enterHead(self, ctx: ZorgFileParser.HeadContext) -> None:  # noqa: D102
         del ctx
@@ -215,24 +218,29 @@ class ZorgFileCompiler(ZorgFileListener):
     def enterLocal_link(
         self, ctx: ZorgFileParser.Local_linkContext
     ) -> None:  # noqa: D102
-        local_id = ctx.children[1].getText()
+        local_id = _second_child_text(ctx)
+        if local_id is None:
+            return
         # HACK: Ignore completed checklists items.
         if local_id == "X":
             return
         self._add_tag("links", f"local:{local_id}")
 
     def enterLink(self, ctx: ZorgFileParser.LinkContext) -> None:  # noqa: D102
-        self._add_tag("links", ctx.children[1].getText())
+        if (value := _second_child_text(ctx)) is not None:
+            self._add_tag("links", value)
 
     def enterPerson(
         self, ctx: ZorgFileParser.PersonContext
     ) -> None:  # noqa: D102
-        self._add_tag("people", ctx.children[1].getText())
+        if (value := _second_child_text(ctx)) is not None:
+            self._add_tag("people", value)
 
     def enterProject(
         self, ctx: ZorgFileParser.ProjectContext
     ) -> None:  # noqa: D102
-        self._add_tag("projects", ctx.children[1].getText())
+        if (value := _second_child_text(ctx)) is not None:
+            self._add_tag("projects", value)
 
     def enterPriority(
         self, ctx: ZorgFileParser.PriorityContext
@@ -248,7 +256,8 @@ class ZorgFileCompiler(ZorgFileListener):
     def enterRef_link(
         self, ctx: ZorgFileParser.Ref_linkContext
     ) -> None:  # noqa: D102
-        self._add_tag("links", f"ref:{ctx.children[1].getText()}")
+        if (value := _second_child_text(ctx)) is not None:
+            self._add_tag("links", f"ref:{value}")
 
     def enterSimple_prop(
         self, ctx: ZorgFileParser.Simple_propContext
@@ -295,7 +304,8 @@ class ZorgFileCompiler(ZorgFileListener):
     def enterZid_link(
         self, ctx: ZorgFileParser.Zid_linkContext
     ) -> None:  # noqa: D102
-        self._add_tag("links", f"zid:{ctx.children[1].getText()}")
+        if (value := _second_child_text(ctx)) is not None:
+            self._add_tag("links", f"zid:{value}")
 
     def exitBase_todo(
         self, ctx: ZorgFileParser.Base_todoContext
@@ -558,6 +568,16 @@ class ZorgFileCompiler(ZorgFileListener):
             assert self._s.block is not None
             note = Note(body, file_path=self.page.path, **kwargs)
             self._s.block.notes.append(note)
+
+
+def _second_child_text(ctx: Any) -> Optional[str]:
+    """Text of the 2nd child of a tag / link context (e.g. 'foo' in '#foo').
+
+    Returns None for a context that the parser's error recovery left without
+    that child (the page has syntax errors in that case).
+    """
+    children = ctx.children or []
+    return children[1].getText() if len(children) > 1 else None
 
 
 def _get_default_tags_map() -> _TagDict:
